@@ -72,25 +72,27 @@ def splitAddress (addr : Str) : Split :=
 
 abbrev Dict := List (Str × Json)
 
-def key (s : String) : Str := s.toList
+/-- text constants are written as character lists: `String.toList` of a literal does not reduce in the kernel
+in reasonable time, and the theorems evaluate the parser on the engine's concrete option texts -/
+abbrev key (s : Str) : Str := s
 
 /-- `d.get(k)` with `None` for a missing key -/
-def dget (d : Dict) (k : String) : Json := (objGet d (key k)).getD .null
+def dget (d : Dict) (k : Str) : Json := (objGet d k).getD .null
 
 /-- `d.update(x)` -/
 def upd (d x : Dict) : Dict := x.foldl (fun acc kv => objSet acc kv.1 kv.2) d
 
 def declare0 : Dict :=
-  [(key "queue", .str []), (key "exchange", .str []), (key "exchange-type", .str (key "direct")),
-   (key "passive", .bool false), (key "internal", .bool false), (key "durable", .bool false),
-   (key "exclusive", .bool false), (key "auto-delete", .bool false), (key "arguments", .null)]
+  [(key ['q', 'u', 'e', 'u', 'e'], .str []), (key ['e', 'x', 'c', 'h', 'a', 'n', 'g', 'e'], .str []), (key ['e', 'x', 'c', 'h', 'a', 'n', 'g', 'e', '-', 't', 'y', 'p', 'e'], .str (key ['d', 'i', 'r', 'e', 'c', 't'])),
+   (key ['p', 'a', 's', 's', 'i', 'v', 'e'], .bool false), (key ['i', 'n', 't', 'e', 'r', 'n', 'a', 'l'], .bool false), (key ['d', 'u', 'r', 'a', 'b', 'l', 'e'], .bool false),
+   (key ['e', 'x', 'c', 'l', 'u', 's', 'i', 'v', 'e'], .bool false), (key ['a', 'u', 't', 'o', '-', 'd', 'e', 'l', 'e', 't', 'e'], .bool false), (key ['a', 'r', 'g', 'u', 'm', 'e', 'n', 't', 's'], .null)]
 
 def linkDeclare0 : Dict :=
-  [(key "queue", .str []), (key "passive", .bool false), (key "internal", .bool false),
-   (key "durable", .bool false), (key "exclusive", .bool true), (key "auto-delete", .bool true),
-   (key "arguments", .null)]
+  [(key ['q', 'u', 'e', 'u', 'e'], .str []), (key ['p', 'a', 's', 's', 'i', 'v', 'e'], .bool false), (key ['i', 'n', 't', 'e', 'r', 'n', 'a', 'l'], .bool false),
+   (key ['d', 'u', 'r', 'a', 'b', 'l', 'e'], .bool false), (key ['e', 'x', 'c', 'l', 'u', 's', 'i', 'v', 'e'], .bool true), (key ['a', 'u', 't', 'o', '-', 'd', 'e', 'l', 'e', 't', 'e'], .bool true),
+   (key ['a', 'r', 'g', 'u', 'm', 'e', 'n', 't', 's'], .null)]
 
-def linkSubscribe0 : Dict := [(key "exclusive", .bool false), (key "arguments", .null)]
+def linkSubscribe0 : Dict := [(key ['e', 'x', 'c', 'l', 'u', 's', 'i', 'v', 'e'], .bool false), (key ['a', 'r', 'g', 'u', 'm', 'e', 'n', 't', 's'], .null)]
 
 structure Dest where
   name : Str
@@ -125,7 +127,7 @@ def nonEmptyArr : Json → Option (List Json)
   | .arr (x :: xs) => some (x :: xs)
   | _ => none
 
-def isStr (j : Json) (s : String) : Bool := decide (j = .str (key s))
+def isStr (j : Json) (s : Str) : Bool := decide (j = .str s)
 
 def strOf : Json → Except AErr Str
   | .str s => .ok s
@@ -133,36 +135,36 @@ def strOf : Json → Except AErr Str
 
 /-- the node part of `parse_address`: (name, declare, bindings) -/
 def nodePart (name : Str) (nd : Dict) : Except AErr (Str × Dict × List Json) := do
-  let ty := dget nd "type"
-  let (name1, d1) ← match nonEmptyObj (dget nd "x-declare") with
+  let ty := dget nd ['t', 'y', 'p', 'e']
+  let (name1, d1) ← match nonEmptyObj (dget nd ['x', '-', 'd', 'e', 'c', 'l', 'a', 'r', 'e']) with
     | none => pure (name, declare0)
     | some xd =>
       let d := upd declare0 xd
       if name ≠ [] then
-        let d := if isStr ty "queue" && !(dget d "queue").truthy then objSet d (key "queue") (.str name) else d
-        let d := if isStr ty "topic" && !(dget d "exchange").truthy then objSet d (key "exchange") (.str name) else d
+        let d := if isStr ty ['q', 'u', 'e', 'u', 'e'] && !(dget d ['q', 'u', 'e', 'u', 'e']).truthy then objSet d (key ['q', 'u', 'e', 'u', 'e']) (.str name) else d
+        let d := if isStr ty ['t', 'o', 'p', 'i', 'c'] && !(dget d ['e', 'x', 'c', 'h', 'a', 'n', 'g', 'e']).truthy then objSet d (key ['e', 'x', 'c', 'h', 'a', 'n', 'g', 'e']) (.str name) else d
         pure (name, d)
       else
         let nm : Json := .str []
-        let nm := if isStr ty "queue" then dget d "queue" else nm
-        let nm := if isStr ty "topic" then dget d "exchange" else nm
-        let nm := if !nm.truthy then dget d "exchange" else nm
-        let nm := if !nm.truthy then dget d "queue" else nm
+        let nm := if isStr ty ['q', 'u', 'e', 'u', 'e'] then dget d ['q', 'u', 'e', 'u', 'e'] else nm
+        let nm := if isStr ty ['t', 'o', 'p', 'i', 'c'] then dget d ['e', 'x', 'c', 'h', 'a', 'n', 'g', 'e'] else nm
+        let nm := if !nm.truthy then dget d ['e', 'x', 'c', 'h', 'a', 'n', 'g', 'e'] else nm
+        let nm := if !nm.truthy then dget d ['q', 'u', 'e', 'u', 'e'] else nm
         match strOf nm with
         | .ok s => pure (s, d)
         | .error e => throw e
-  let d2 := if (dget nd "durable").truthy then objSet d1 (key "durable") (.bool true) else d1
-  let d3 := if (dget nd "auto-delete").truthy then objSet d2 (key "auto-delete") (.bool true) else d2
-  let bs := match nonEmptyArr (dget nd "x-bindings") with
+  let d2 := if (dget nd ['d', 'u', 'r', 'a', 'b', 'l', 'e']).truthy then objSet d1 (key ['d', 'u', 'r', 'a', 'b', 'l', 'e']) (.bool true) else d1
+  let d3 := if (dget nd ['a', 'u', 't', 'o', '-', 'd', 'e', 'l', 'e', 't', 'e']).truthy then objSet d2 (key ['a', 'u', 't', 'o', '-', 'd', 'e', 'l', 'e', 't', 'e']) (.bool true) else d2
+  let bs := match nonEmptyArr (dget nd ['x', '-', 'b', 'i', 'n', 'd', 'i', 'n', 'g', 's']) with
     | some xs => xs
     | none => []
   pure (name1, d3, bs)
 
 def linkPart (lk : Dict) : Dict × Dict :=
-  let ld := match nonEmptyObj (dget lk "x-declare") with
+  let ld := match nonEmptyObj (dget lk ['x', '-', 'd', 'e', 'c', 'l', 'a', 'r', 'e']) with
     | some xd => upd linkDeclare0 xd
     | none => linkDeclare0
-  let ls := match nonEmptyObj (dget lk "x-subscribe") with
+  let ls := match nonEmptyObj (dget lk ['x', '-', 's', 'u', 'b', 's', 'c', 'r', 'i', 'b', 'e']) with
     | some xs => upd linkSubscribe0 xs
     | none => linkSubscribe0
   (ld, ls)
@@ -171,11 +173,11 @@ def linkPart (lk : Dict) : Dict × Dict :=
 def destOf (name subject : Str) (options : Json) : Except AErr Dest :=
   match options with
   | .obj o => do
-    let node ← truthyObj (dget o "node")
+    let node ← truthyObj (dget o ['n', 'o', 'd', 'e'])
     let (name1, decl, bs) ← match node with
       | none => pure (name, declare0, [])
       | some nd => nodePart name nd
-    let link ← truthyObj (dget o "link")
+    let link ← truthyObj (dget o ['l', 'i', 'n', 'k'])
     let (ld, ls) := match link with
       | none => (linkDeclare0, linkSubscribe0)
       | some lk => linkPart lk
@@ -207,20 +209,20 @@ structure Env where
   deriving Repr
 
 def exchangeOp (d : Dict) : List Op :=
-  if (dget d "exchange").truthy then
-    [.exchangeDeclare (dget d "exchange") (dget d "exchange-type") (dget d "passive") (dget d "durable")
-      (dget d "auto-delete") (dget d "arguments")]
+  if (dget d ['e', 'x', 'c', 'h', 'a', 'n', 'g', 'e']).truthy then
+    [.exchangeDeclare (dget d ['e', 'x', 'c', 'h', 'a', 'n', 'g', 'e']) (dget d ['e', 'x', 'c', 'h', 'a', 'n', 'g', 'e', '-', 't', 'y', 'p', 'e']) (dget d ['p', 'a', 's', 's', 'i', 'v', 'e']) (dget d ['d', 'u', 'r', 'a', 'b', 'l', 'e'])
+      (dget d ['a', 'u', 't', 'o', '-', 'd', 'e', 'l', 'e', 't', 'e']) (dget d ['a', 'r', 'g', 'u', 'm', 'e', 'n', 't', 's'])]
   else []
 
 /-- `binding["exchange"]`, `binding["queue"]` (KeyError when missing), `.get("key")`, `.get("arguments")` -/
 def bindOps : List Json → Except AErr (List Op)
   | [] => .ok []
   | .obj b :: rest =>
-    match objGet b (key "exchange"), bindOps rest with
+    match objGet b (key ['e', 'x', 'c', 'h', 'a', 'n', 'g', 'e']), bindOps rest with
     | some ex, .ok ops =>
       if ex = .str [] then .ok ops
-      else match objGet b (key "queue") with
-        | some q => .ok (.queueBind q ex (dget b "key") (dget b "arguments") :: ops)
+      else match objGet b (key ['q', 'u', 'e', 'u', 'e']) with
+        | some q => .ok (.queueBind q ex (dget b ['k', 'e', 'y']) (dget b ['a', 'r', 'g', 'u', 'm', 'e', 'n', 't', 's']) :: ops)
         | none => .error .shape
     | none, _ => .error .shape
     | _, .error e => .error e
@@ -234,7 +236,7 @@ def consumerOpen (env : Env) (dst : Dest) : Except AErr (List Op × Str) := do
     if dst.name ≠ [] then
       if dst.name ∈ env.exchanges then pure (some dst.name)
       else if dst.subject ≠ [] then
-        if dget dst.declare "exchange" = .str dst.name then pure (some dst.name)
+        if dget dst.declare ['e', 'x', 'c', 'h', 'a', 'n', 'g', 'e'] = .str dst.name then pure (some dst.name)
         else throw AErr.noExchange
       else pure none
     else pure none
@@ -243,22 +245,22 @@ def consumerOpen (env : Env) (dst : Dest) : Except AErr (List Op × Str) := do
     | none => pure (Json.str dst.name, dst.bindings)
     | some ex =>
       let qn : Json :=
-        if (dget dst.declare "queue").truthy then dget dst.declare "queue"
-        else if (dget dst.linkDeclare "queue").truthy then dget dst.linkDeclare "queue"
+        if (dget dst.declare ['q', 'u', 'e', 'u', 'e']).truthy then dget dst.declare ['q', 'u', 'e', 'u', 'e']
+        else if (dget dst.linkDeclare ['q', 'u', 'e', 'u', 'e']).truthy then dget dst.linkDeclare ['q', 'u', 'e', 'u', 'e']
         else .str []
       let bs := if dst.bindings.isEmpty ∧ dst.subject ≠ [] then
-          [Json.obj [(key "queue", qn), (key "exchange", .str ex), (key "key", .str dst.subject)]]
+          [Json.obj [(key ['q', 'u', 'e', 'u', 'e'], qn), (key ['e', 'x', 'c', 'h', 'a', 'n', 'g', 'e'], .str ex), (key ['k', 'e', 'y'], .str dst.subject)]]
         else dst.bindings
       pure (qn, bs)
   let qn ← strOf qname
-  let decl := if exchange.isSome ∧ !(dget dst.declare "queue").truthy then dst.linkDeclare else dst.declare
-  let decl := if qn = [] then objSet decl (key "auto-delete") (.bool true) else decl
-  let qd := Op.queueDeclare (.str qn) (dget decl "passive") (dget decl "durable") (dget decl "exclusive")
-    (dget decl "auto-delete") (dget decl "arguments")
+  let decl := if exchange.isSome ∧ !(dget dst.declare ['q', 'u', 'e', 'u', 'e']).truthy then dst.linkDeclare else dst.declare
+  let decl := if qn = [] then objSet decl (key ['a', 'u', 't', 'o', '-', 'd', 'e', 'l', 'e', 't', 'e']) (.bool true) else decl
+  let qd := Op.queueDeclare (.str qn) (dget decl ['p', 'a', 's', 's', 'i', 'v', 'e']) (dget decl ['d', 'u', 'r', 'a', 'b', 'l', 'e']) (dget decl ['e', 'x', 'c', 'l', 'u', 's', 'i', 'v', 'e'])
+    (dget decl ['a', 'u', 't', 'o', '-', 'd', 'e', 'l', 'e', 't', 'e']) (dget decl ['a', 'r', 'g', 'u', 'm', 'e', 'n', 't', 's'])
   let actual := if qn = [] then env.anon else qn
   let binds ← bindOps bindings
   pure (exchangeOp dst.declare ++ [qd] ++ binds ++
-    [.consume (.str actual) (dget dst.linkSubscribe "exclusive") (dget dst.linkSubscribe "arguments")], actual)
+    [.consume (.str actual) (dget dst.linkSubscribe ['e', 'x', 'c', 'l', 'u', 's', 'i', 'v', 'e']) (dget dst.linkSubscribe ['a', 'r', 'g', 'u', 'm', 'e', 'n', 't', 's'])], actual)
 
 /-- where a Producer publishes: the exchange and the default subject -/
 structure Target where
@@ -269,7 +271,7 @@ structure Target where
 /-- `Producer.open` -/
 def producerOpen (env : Env) (dst : Dest) : List Op × Target :=
   let tgt : Target :=
-    if dst.name ≠ [] ∧ dst.name ∉ env.exchanges ∧ dget dst.declare "exchange" ≠ .str dst.name then
+    if dst.name ≠ [] ∧ dst.name ∉ env.exchanges ∧ dget dst.declare ['e', 'x', 'c', 'h', 'a', 'n', 'g', 'e'] ≠ .str dst.name then
       ⟨[], dst.name⟩          -- "assume default direct exchange": the name becomes the subject
     else ⟨dst.name, dst.subject⟩
   (exchangeOp dst.declare, tgt)
@@ -297,34 +299,39 @@ inductive QType where
 
 def qq : QType → Str
   | .classic => []
-  | .quorum => key "-qq"
+  | .quorum => key ['-', 'q', 'q']
 
 def sharedName (qn : Str) (qt : QType) : Str := qn ++ qq qt
 def instanceName (qn : Str) (qt : QType) (iid : Str) : Str := qn ++ qq qt ++ '-' :: iid
-def replyName (qt : QType) (iid : Str) : Str := key "asl_workflow_reply_to" ++ qq qt ++ '-' :: iid
+def replyName (qt : QType) (iid : Str) : Str := key ['a', 's', 'l', '_', 'w', 'o', 'r', 'k', 'f', 'l', 'o', 'w', '_', 'r', 'e', 'p', 'l', 'y', '_', 't', 'o'] ++ qq qt ++ '-' :: iid
 
+/-- `, "x-declare": {"arguments": {"x-queue-type": "quorum"}}` for quorum queues -/
 def xDeclareText : QType → Str
   | .classic => []
-  | .quorum => key ", \"x-declare\": {\"arguments\": {\"x-queue-type\": \"quorum\"}}"
+  | .quorum => key [',', ' ', '"', 'x', '-', 'd', 'e', 'c', 'l', 'a', 'r', 'e', '"', ':', ' ', '{', '"', 'a', 'r', 'g', 'u', 'm', 'e', 'n', 't', 's', '"', ':', ' ', '{', '"', 'x', '-', 'q', 'u', 'e', 'u', 'e', '-', 't', 'y', 'p', 'e', '"', ':', ' ', '"', 'q', 'u', 'o', 'r', 'u', 'm', '"', '}', '}']
 
-def sharedTail (qt : QType) : Str := key " {\"node\": {\"durable\": true" ++ xDeclareText qt ++ key "}}"
+/-- ` {"node": {"durable": true<x-declare>}}` -/
+def sharedTail (qt : QType) : Str := key [' ', '{', '"', 'n', 'o', 'd', 'e', '"', ':', ' ', '{', '"', 'd', 'u', 'r', 'a', 'b', 'l', 'e', '"', ':', ' ', 't', 'r', 'u', 'e'] ++ xDeclareText qt ++ key ['}', '}']
+/-- ` {"node": {"durable": true<x-declare>}, "link": {"x-subscribe": {"exclusive": true}}}` -/
 def instanceTail (qt : QType) : Str :=
-  key " {\"node\": {\"durable\": true" ++ xDeclareText qt ++ key "}, " ++
-  key "\"link\": {\"x-subscribe\": {\"exclusive\": true}}}"
+  key [' ', '{', '"', 'n', 'o', 'd', 'e', '"', ':', ' ', '{', '"', 'd', 'u', 'r', 'a', 'b', 'l', 'e', '"', ':', ' ', 't', 'r', 'u', 'e'] ++ xDeclareText qt ++ key ['}', ',', ' '] ++
+  key ['"', 'l', 'i', 'n', 'k', '"', ':', ' ', '{', '"', 'x', '-', 's', 'u', 'b', 's', 'c', 'r', 'i', 'b', 'e', '"', ':', ' ', '{', '"', 'e', 'x', 'c', 'l', 'u', 's', 'i', 'v', 'e', '"', ':', ' ', 't', 'r', 'u', 'e', '}', '}', '}']
+/-- ` {"node": {"durable": true<x-declare>}, "link": {"x-subscribe": {"arguments": {"x-priority": 10}}}}` -/
 def replyTail (qt : QType) : Str :=
-  key " {\"node\": {\"durable\": true" ++ xDeclareText qt ++ key "}, " ++
-  key "\"link\": {\"x-subscribe\": {\"arguments\": {\"x-priority\": 10}}}}"
+  key [' ', '{', '"', 'n', 'o', 'd', 'e', '"', ':', ' ', '{', '"', 'd', 'u', 'r', 'a', 'b', 'l', 'e', '"', ':', ' ', 't', 'r', 'u', 'e'] ++ xDeclareText qt ++ key ['}', ',', ' '] ++
+  key ['"', 'l', 'i', 'n', 'k', '"', ':', ' ', '{', '"', 'x', '-', 's', 'u', 'b', 's', 'c', 'r', 'i', 'b', 'e', '"', ':', ' ', '{', '"', 'a', 'r', 'g', 'u', 'm', 'e', 'n', 't', 's', '"', ':', ' ', '{', '"', 'x', '-', 'p', 'r', 'i', 'o', 'r', 'i', 't', 'y', '"', ':', ' ', '1', '0', '}', '}', '}', '}']
 
 def sharedAddr (qn : Str) (qt : QType) : Str := sharedName qn qt ++ ';' :: sharedTail qt
 def instanceAddr (qn : Str) (qt : QType) (iid : Str) : Str := instanceName qn qt iid ++ ';' :: instanceTail qt
 def replyAddr (qt : QType) (iid : Str) : Str := replyName qt iid ++ ';' :: replyTail qt
 /-- the notification topic of the shipped `config.json` (read verbatim from the configuration) -/
+/- `{"node": {"x-declare": {"exchange": "asl_workflow_engine", "exchange-type": "topic", "durable": true}}}` -/
 def topicAddr : Str :=
-  key "{\"node\": {\"x-declare\": {\"exchange\": \"asl_workflow_engine\", \"exchange-type\": \"topic\", \"durable\": true}}}"
+  key ['{', '"', 'n', 'o', 'd', 'e', '"', ':', ' ', '{', '"', 'x', '-', 'd', 'e', 'c', 'l', 'a', 'r', 'e', '"', ':', ' ', '{', '"', 'e', 'x', 'c', 'h', 'a', 'n', 'g', 'e', '"', ':', ' ', '"', 'a', 's', 'l', '_', 'w', 'o', 'r', 'k', 'f', 'l', 'o', 'w', '_', 'e', 'n', 'g', 'i', 'n', 'e', '"', ',', ' ', '"', 'e', 'x', 'c', 'h', 'a', 'n', 'g', 'e', '-', 't', 'y', 'p', 'e', '"', ':', ' ', '"', 't', 'o', 'p', 'i', 'c', '"', ',', ' ', '"', 'd', 'u', 'r', 'a', 'b', 'l', 'e', '"', ':', ' ', 't', 'r', 'u', 'e', '}', '}', '}']
 
 def queueArgs : QType → Json
   | .classic => .null
-  | .quorum => .obj [(key "x-queue-type", .str (key "quorum"))]
+  | .quorum => .obj [(key ['x', '-', 'q', 'u', 'e', 'u', 'e', '-', 't', 'y', 'p', 'e'], .str (key ['q', 'u', 'o', 'r', 'u', 'm']))]
 
 /-! ### Message ↔ BasicProperties -/
 
@@ -357,7 +364,7 @@ structure Msg where
   tag : Nat := 0               -- `_delivery_tag` (0: not a delivery)
   deriving Repr, DecidableEq
 
-def subjectKey : Str := key "x-amqp-0-9-1.subject"
+def subjectKey : Str := key ['x', '-', 'a', 'm', 'q', 'p', '-', '0', '-', '9', '-', '1', '.', 's', 'u', 'b', 'j', 'e', 'c', 't']
 
 /-- `message.subject` -/
 def Msg.subject (m : Msg) : Json := (objGet m.properties subjectKey).getD .null
@@ -424,8 +431,8 @@ def parseFloatText (s : Str) : Num :=
     | '+' :: r => (false, r)
     | r => (false, r)
   let w := lower u
-  if w = key "inf" ∨ w = key "infinity" then .inf neg
-  else if w = key "nan" then .nan
+  if w = key ['i', 'n', 'f'] ∨ w = key ['i', 'n', 'f', 'i', 'n', 'i', 't', 'y'] then .inf neg
+  else if w = key ['n', 'a', 'n'] then .nan
   else
     let (iv, ic, r1) := digitsOf u
     let (fv, fc, r2) := match r1 with
